@@ -12,6 +12,10 @@ OPEN_MODES = [("ihello", "ihello<esc>"), ("Aend", "Aend<esc>"), ("oline", "oline
               ("o", "o<esc>"), ("A<CR>", "A<CR><esc>"), ("O", "O<esc>"), ("Go", "Go<esc>"), ("GA<CR>", "GA<CR><esc>"), ("$vl", "$vl<esc>"), ("G$v", "G$v<esc>")]
 COMPLETE_EXTRA = ["dvw", "dVj", '"ayw', '"Ayw', '"ap', "fa;", "tb,", "fa2;", "x.", "dw.", "/o<CR>n", "/a<CR>N", "?o<CR>n", "3x", "2dw", "yyp", "ddP", "xu",
                   "ixy<esc>.", ":s/a/b/<CR>", "vey", "viwd", "guiw", "~", "J", "rZ",
+                  # :normal! runs its keys once per line and is over at its <CR>: what follows it in the argument comes after all of that
+                  ":1,2normal! x<CR>", ":%normal! Ax<CR>", ":1,3normal! dw<CR>", ":normal! d<CR>", ":1,2normal! 2<CR>", ":%normal! ~<CR>",
+                  # an operator on a selection ends Visual mode: what is typed next in the same argument is a Normal-mode command
+                  "veg?", "Vjg?", "vlg~", "vegU", "viwgu", "Vj>", "Vj<", "vj=", "Vd", "Vy", "vlc!<esc>", "vjJ", "<c-v>jld", "vlr.", "ve~", "veu", "VU", "vly", "Vjy", "<c-v>jly", "v$d", "Vjc-<esc>",
                   # cancelled or rejected commands: what they had collected (count, register, operator, v/V modifier) must be gone
                   "dv<esc>", "dV<esc>", "d<esc>", "c<esc>", '"a<esc>', "3<esc>", "2d<esc>", "g<esc>", "dvb", "dvq", "yV<esc>", "dv<esc>", "f<esc>", "dt<esc>", "di<esc>",
                   # a register name the parser rejects: the prefix is dropped on the spot, the next command is not swallowed
